@@ -519,8 +519,13 @@ def build_request_bytes(req):
     """HTTP request bytes of one planned editor request (pure function)."""
     if req.get('raw_hex') is not None:
         return bytes.fromhex(req['raw_hex'])
-    fields = req.get('fields', [])
-    body = urllib.parse.urlencode(fields, encoding='utf-8').encode('ascii')
+    fields = [list(f) for f in req.get('fields', [])]
+    if req.get('doc') is not None:
+        from sim import docgen
+        fields.insert(min(req.get('text_pos', 1), len(fields)),
+                      ['text', docgen.file_text(req['doc'])])
+    body = urllib.parse.urlencode([tuple(f) for f in fields],
+                                  encoding='utf-8').encode('ascii')
     fault = req.get('fault') or {}
     kind = fault.get('kind')
     clen = len(body)
